@@ -46,17 +46,59 @@ type PasteArgs struct {
 	// "accept" (A must load: identical redefinition through two routes)
 	Expect string `json:"expect"`
 	Class  string `json:"class"` // input class, part of the failure key
+	// Opts: loader options set on every load of the pair (the load with include, every included project on its own,
+	// the pasted single file).  The cloned options of the included load must behave like the caller's.
+	Opts *PasteOpts `json:"opts,omitempty"`
+}
+
+// PasteOpts are the loader options the paste oracle varies.
+type PasteOpts struct {
+	SkipInterpolation      bool     `json:"skip_interpolation,omitempty"`
+	SkipValidation         bool     `json:"skip_validation,omitempty"`
+	SkipNormalization      bool     `json:"skip_normalization,omitempty"`
+	SkipConsistencyCheck   bool     `json:"skip_consistency_check,omitempty"`
+	SkipExtends            bool     `json:"skip_extends,omitempty"`
+	SkipResolveEnvironment bool     `json:"skip_resolve_environment,omitempty"`
+	SkipDefaultValues      bool     `json:"skip_default_values,omitempty"`
+	Profiles               []string `json:"profiles,omitempty"`
+}
+
+// Name is a stable label of the option set (distribution histogram, failure keys).
+func (o *PasteOpts) Name() string {
+	if o == nil {
+		return "default"
+	}
+	var n []string
+	for _, f := range []struct {
+		on bool
+		s  string
+	}{{o.SkipInterpolation, "SkipInterpolation"}, {o.SkipValidation, "SkipValidation"}, {o.SkipNormalization, "SkipNormalization"},
+		{o.SkipConsistencyCheck, "SkipConsistencyCheck"}, {o.SkipExtends, "SkipExtends"}, {o.SkipResolveEnvironment, "SkipResolveEnvironment"},
+		{o.SkipDefaultValues, "SkipDefaultValues"}, {len(o.Profiles) > 0, "Profiles"}} {
+		if f.on {
+			n = append(n, f.s)
+		}
+	}
+	if len(n) == 0 {
+		return "default"
+	}
+	return strings.Join(n, "+")
 }
 
 const projectName = "p"
 
-func loadProject(root, wd string, files []string, env map[string]string) (*types.Project, error) {
+func loadProject(root, wd string, files []string, env map[string]string, o *PasteOpts) (*types.Project, error) {
 	req := core.LoadReq{ConfigFiles: files, WorkingDir: wd, Env: env, ProjectName: projectName}
+	if o != nil {
+		req.SkipInterpolation, req.SkipValidation, req.SkipNormalization = o.SkipInterpolation, o.SkipValidation, o.SkipNormalization
+		req.SkipConsistencyCheck, req.SkipExtends, req.SkipResolveEnvironment = o.SkipConsistencyCheck, o.SkipExtends, o.SkipResolveEnvironment
+		req.SkipDefaultValues, req.Profiles = o.SkipDefaultValues, o.Profiles
+	}
 	return req.LoadIn(root)
 }
 
 // includedOnItsOwn loads one included project by itself and returns its model (the yaml dictionary).
-func includedOnItsOwn(root string, e Entry, parentEnv map[string]string) (map[string]any, error) {
+func includedOnItsOwn(root string, e Entry, parentEnv map[string]string, po *PasteOpts) (map[string]any, error) {
 	env := types.Mapping{}
 	for k, v := range parentEnv {
 		env[k] = v
@@ -89,6 +131,10 @@ func includedOnItsOwn(root string, e Entry, parentEnv map[string]string) (map[st
 	details := types.ConfigDetails{WorkingDir: filepath.Join(root, e.ProjDir), ConfigFiles: cfs, Environment: env}
 	return loader.LoadModelWithContext(context.Background(), details, func(o *loader.Options) {
 		o.SetProjectName(projectName, true)
+		if po != nil { // "loaded on its own" under the caller's options
+			o.SkipInterpolation, o.SkipValidation, o.SkipExtends = po.SkipInterpolation, po.SkipValidation, po.SkipExtends
+			o.SkipResolveEnvironment, o.SkipDefaultValues, o.Profiles = po.SkipResolveEnvironment, po.SkipDefaultValues, po.Profiles
+		}
 		o.SkipNormalization = true
 		o.SkipConsistencyCheck = true
 		o.ResolvePaths = true
@@ -202,7 +248,7 @@ func RealPaste(a PasteArgs) any {
 		return map[string]any{"bad": err.Error()}
 	}
 	wd := filepath.Dir(a.Main)
-	pa, errA := loadProject(root, wd, []string{a.Main}, a.Env)
+	pa, errA := loadProject(root, wd, []string{a.Main}, a.Env, a.Opts)
 	outA := outcome(pa, errA, root)
 	res := map[string]any{"a": outA}
 	if a.Expect != "paste" {
@@ -218,8 +264,12 @@ func RealPaste(a PasteArgs) any {
 		return map[string]any{"bad": "main file of a paste case must be JSON-flow YAML: " + err.Error()}
 	}
 	delete(own, "include")
+	esc := escapeDollar
+	if a.Opts != nil && a.Opts.SkipInterpolation {
+		esc = func(v any) any { return v } // nothing is interpolated: the pasted text is the value
+	}
 	for i, e := range a.Entries {
-		dict, err := includedOnItsOwn(root, e, a.Env)
+		dict, err := includedOnItsOwn(root, e, a.Env, a.Opts)
 		if err != nil {
 			res["b"] = map[string]any{"err": core.ScrubErr(err, root), "class": ErrClass(err), "entry": i}
 			return res
@@ -235,13 +285,13 @@ func RealPaste(a PasteArgs) any {
 			}
 			for name, def := range from {
 				if prev, dup := to[name]; dup {
-					if !reflect.DeepEqual(prev, escapeDollar(def)) {
+					if !reflect.DeepEqual(prev, esc(def)) {
 						res["b"] = map[string]any{"err": kind + "." + name + " defined differently on two sides", "class": "conflict", "entry": i}
 						return res
 					}
 					continue
 				}
-				to[name] = escapeDollar(def)
+				to[name] = esc(def)
 			}
 			own[kind] = to
 		}
@@ -251,7 +301,7 @@ func RealPaste(a PasteArgs) any {
 	if err := os.WriteFile(filepath.Join(root, pastedName), pasted, 0o644); err != nil {
 		return map[string]any{"bad": err.Error()}
 	}
-	pb, errB := loadProject(root, wd, []string{pastedName}, a.Env)
+	pb, errB := loadProject(root, wd, []string{pastedName}, a.Env, a.Opts)
 	outB := outcome(pb, errB, root)
 	res["b"] = outB
 	if errA == nil && errB == nil {
